@@ -88,15 +88,18 @@ rt = ["| round | changes | caught at first run | caught now |", "|---|---:|---:|
 for r, ss in rounds.items():
     rt.append(f"| {r} | {len(ss)} | {sum(x['first_run'] == 'caught' for x in ss)} | "
               f"{sum(bool(x['now']) for x in ss)} |")
+weak_first = {}
 for r in ("a", "b"):
     ss = [s for n, s in status.items() if n.split("-")[0] in weak
           and (("agentb" in n) == (r == "b"))]
+    weak_first[r] = sum(x['first_run'] == 'caught' for x in ss)
     rt.append(f"| {r}, only C03 C09 C10 C16 C18 | {len(ss)} | "
               f"{sum(x['first_run'] == 'caught' for x in ss)} | "
               f"{sum(bool(x['now']) for x in ss)} |")
 from pta.selftest.twins import TWINS   # noqa: E402
 doc = (doc.replace("{N_FIXES}", str(n_fix)).replace("{N_FOUND}", str(n_fix + 2))
        .replace("{N_OPEN_KEYS}", str(len(open_keys))).replace("{ROUND_TABLE}", "\n".join(rt))
+       .replace("{WEAK_A}", str(weak_first["a"])).replace("{WEAK_B}", str(weak_first["b"]))
        .replace("{N_TWINS}", str(len(TWINS))).replace("{N_SEEDS}", str(len(status))))
 (V / "DESIGN.md").write_text(doc)
 subprocess.run([sys.executable, str(V / "tools/gen_design_tables.py")], check=True)
